@@ -40,7 +40,11 @@ def gen_src(r, files):
                                    "/*gpufun*/ double g(/*gpuglmem*/ const double* /*restrict*/ p){ return p[0]; }"]))
         elif k == "vec" and not inside:
             lines.append(r.choice(["int tid = 0; //vectorize_over tid n", "  //vectorize_over   ii   nn  ",
-                                   "//vectorize_over k obj->n", "//vectorize_over j n/2"]))
+                                   "//vectorize_over k obj->n", "//vectorize_over j n/2",
+                                   # a hand-written loop header in front of the annotation (as in tests/test_ref.py): the generated
+                                   # loop replaces it, whatever range it names
+                                   "for (int ii=0; ii<cap; ii++){ //vectorize_over ii n",
+                                   "for (int64_t k=1; k<n; k++) { //vectorize_over k n"]))
             inside = True
         elif k == "end" and inside:
             lines.append(r.choice(["  //end_vectorize", "//end_vectorize"]))
@@ -217,7 +221,7 @@ KSRC = """
 %(incl)s
 /*gpukern*/ void %(name)s(const int %(lim)s, /*gpuglmem*/ int32_t* cnt, /*gpuglmem*/ double* y){
   %(pre)s
-  int %(v)s = 0;//vectorize_over %(v)s %(bound)s
+  %(open)s//vectorize_over %(v)s %(bound)s
     cnt[%(v)s] += 1;
 %(body)s
   //end_vectorize
@@ -278,8 +282,11 @@ def gen_kernel(r, k):
             if t in named:
                 weights[t] += w
     name = f"kern{k}"
-    src = KSRC % {"incl": incl, "name": name, "lim": lim, "bound": bound, "v": v,
-                  "pre": "const int skip = 2;" if "skip" in bound else "", "body": "\n".join(body)}
+    # the text in front of the annotation is replaced by the generated loop / work-item index on every target - also when it is a
+    # hand-written loop header naming ANOTHER range
+    opening = r.choice([f"int {v} = 0;", f"int {v} = 0;", f"for (int {v}=1; {v}<{lim}+3; {v}++){{ ", f"for (int {v}=0; {v}<total_cap; {v}++) {{"])
+    src = KSRC % {"incl": incl, "name": name, "lim": lim, "bound": bound, "v": v, "open": opening,
+                  "pre": ("const int skip = 2;" if "skip" in bound else "") + (" const int total_cap = 3;" if "total_cap" in opening else ""), "body": "\n".join(body)}
     count = {lim: lambda n: n, lim + "/2": lambda n: n // 2, lim + "-1": lambda n: max(0, n - 1), lim + "-skip": lambda n: max(0, n - 2)}[bound]
     return name, lim, src, files, weights, count, bound != lim
 
